@@ -1101,18 +1101,13 @@ fn hyphen<'s>(input: &mut &'s str) -> PResult<Option<BoundSet>, SemverParseError
         let _ = space1(input)?;
         let upper = partial_version(input)?;
         let upper = match upper {
+            // `1.2.3 - *` has no upper bound
             Partial {
                 major: None,
                 minor: None,
                 patch: None,
                 ..
-            } => Predicate::Excluding(Version {
-                major: 0,
-                minor: 0,
-                patch: 0,
-                pre_release: vec![Identifier::Numeric(0)],
-                build: vec![],
-            }),
+            } => Predicate::Unbounded,
             Partial {
                 major: Some(major),
                 minor: None,
